@@ -305,7 +305,7 @@ func countFields(ast map[string]any, n int, data []byte, p int, out *[]int) (int
 		return p + n*num(ast["n"]), true
 	case "uuid", "point":
 		return p + 16*n, true
-	case "string":
+	case "string", "json":
 		for i := 0; i < n; i++ {
 			l, k := binary.Uvarint(data[min(p, len(data)):])
 			if k <= 0 {
@@ -383,8 +383,8 @@ func countFields(ast map[string]any, n int, data []byte, p int, out *[]int) (int
 // lcCount is the number of LowCardinality wrappers in a type: each has an 8-byte state prefix in front of the data.
 func lcCount(ast map[string]any) int {
 	n := 0
-	if ast["k"] == "lc" {
-		n = 1
+	if ast["k"] == "lc" || ast["k"] == "json" {
+		n = 1 // 8 bytes of state in front of the data
 	}
 	for _, k := range []string{"e", "key", "val"} {
 		if m, ok := ast[k].(map[string]any); ok {
